@@ -66,6 +66,7 @@ MUST_COUNT = ["branch_outputs_compared", "identity_graphs_walked", "contexts_mut
               "later_computes_compared"]
 MIN_NONTRIVIAL = {"quick": 9000, "thorough": 350000}
 NCASES = {"quick": (8000, 8000), "thorough": (300000, 300000)}
+NBIG = {"quick": 250, "thorough": 8000}
 
 LEVEL_TEXT = ("Seeded random exploration. (a) every generated Split/Zip program is executed on "
               "the real code and each branch's tagged outputs are compared with the same "
@@ -355,13 +356,18 @@ def rand_tree_ctx(rng, i):
         c["output"] = {"suffix": "_o"}
     if rng.random() < 0.15:
         c["variable"] = {"name": "old", "type": "told", "told": {"name": "old"}}
+    if rng.random() < 0.25:
+        # tuples that hold dictionaries and lists (what Combine writes to
+        # context.variable.combine and Zip to context.zip); ["TUPLE", ...] in the recipe
+        c[rng.choice(["zip", "combine"])] = ["TUPLE", {"z": i}, {"w": [i], "t": ["TUPLE", [i]]}]
     return c
 
 
-def rand_split_flow(rng):
-    n = rng.choice([0, 1, 2, 3, 3, 4, 5, 6])
+def rand_split_flow(rng, n=None, bare_first=0):
+    if n is None:
+        n = rng.choice([0, 1, 2, 3, 3, 4, 5, 6])
     fl = []
-    bare = rng.random() < 0.15
+    bare = rng.random() < 0.15 and not bare_first
     # data that are instances of a subclass of float / str with a mutable attribute
     attr_data = rng.random() < 0.12
     # contexts of class lena.context.Context (what the Context() element produces): a dict
@@ -372,7 +378,9 @@ def rand_split_flow(rng):
         if attr_data:
             d = {"E": rng.randint(0, 9) + 0.5, "tags": [i]} if rng.random() < 0.7 else \
                 {"S": "s%d" % rng.randint(0, 9), "tags": []}
-        if bare or rng.random() < 0.1:
+        if i < bare_first:
+            fl.append({"d": rng.randint(0, 9), "c": None})
+        elif bare or rng.random() < 0.1:
             fl.append({"d": d, "c": None})
         else:
             fl.append({"d": d, "c": rand_tree_ctx(rng, i)})
@@ -397,8 +405,19 @@ def mkflow(fr):
     return out
 
 
+def _tuples(x):
+    """Recipe form -> value: lists starting with "TUPLE" become tuples."""
+    if isinstance(x, list):
+        if x and x[0] == "TUPLE":
+            return tuple(_tuples(y) for y in x[1:])
+        return [_tuples(y) for y in x]
+    if isinstance(x, dict):
+        return dict((k, _tuples(y)) for k, y in x.items())
+    return x
+
+
 def _mkctx(v):
-    c = copy.deepcopy(v["c"])
+    c = _tuples(copy.deepcopy(v["c"]))
     if v.get("cc"):
         import lena.context
         c = lena.context.Context(c)
@@ -565,6 +584,19 @@ def cases(tier, seed):
             yield {"k": "uncopyable", "acc": acc, "n": nfill}
     for c in corner_cases():
         yield c
+    # beyond the small sizes: blocks of 17..200 values, the first tens of them plain numbers,
+    # and 5..9 branches
+    for i in range(NBIG[tier]):
+        rng = gen.rng_for(seed, "C04", "big", i)
+        kind = rng.choice(["split-run", "split-run", "split-fill"])
+        nbr = rng.choice([2, 3, 3, 5, 9])
+        types = [rng.choice(["seq", "seq", "fc", "fc"]) for _ in range(nbr)] \
+            if kind == "split-run" else ["fc"] * nbr
+        n = rng.choice([17, 33, 65, 66, 100, 130, 200, rng.randint(17, 200)])
+        flow = rand_split_flow(rng, n, bare_first=rng.choice([0, 16, 32, 64, 65, 128, n - 2]))
+        yield {"k": kind, "branches": [rand_branch(rng, t, stops=False) for t in types],
+               "flow": flow, "bufsize": rng.choice([n, n + 1, 1000, None, 64, 65, 70, 128]),
+               "big": 1}
     for i in range(max(na, nb)):
         if i < na:
             rng = gen.rng_for(seed, "C04", "a", i)
